@@ -23,6 +23,20 @@ import (
 	"go.uber.org/zap/zaptest/observer"
 )
 
+// cleanupT is a test handle that also offers Cleanup, as *testing.T does.
+type cleanupT struct {
+	fakeT
+	fns []func()
+}
+
+func (t *cleanupT) Cleanup(f func()) { t.fns = append(t.fns, f) }
+func (t *cleanupT) finish() {
+	for i := len(t.fns) - 1; i >= 0; i-- {
+		t.fns[i]()
+	}
+	t.fns = nil
+}
+
 type fakeT struct {
 	mu     sync.Mutex
 	logs   []string
@@ -114,6 +128,18 @@ func writers(r *ev.Run) {
 			core, _ := observer.New(zapcore.ErrorLevel)
 			l, _ := zap.NewStdLogAt(zap.New(core), zapcore.DebugLevel)
 			return l.Writer(), func() {}
+		}},
+		{"zaptest.TestingWriter(test with Cleanup, written to after its cleanups ran)", func() (io.Writer, func()) {
+			t := &cleanupT{}
+			w := zaptest.NewTestingWriter(t)
+			t.finish()
+			return w, func() {}
+		}},
+		{"zaptest.TestingWriter(markFailed copy, test with Cleanup, after its cleanups ran)", func() (io.Writer, func()) {
+			t := &cleanupT{}
+			w := zaptest.NewTestingWriter(t).WithMarkFailed(true)
+			t.finish()
+			return w, func() {}
 		}},
 		{"zaptest.TestingWriter", func() (io.Writer, func()) {
 			return zaptest.NewTestingWriter(&fakeT{}), func() {}
